@@ -37,7 +37,7 @@ RULE = ("Hypothesis cases {program, order, labels, compact, outer, unroll, obser
         "unoccupied id inserted; label map = none | labels for a drawn subset of the occupied ids, sometimes plus an "
         "unoccupied key; compact on/off; outer global durations = none | four positive dyadic values (so != the drawing's "
         "2/1/1/2 in compact mode); the circuit as built or after apply_modifiers(); fingerprint taken before plotting or "
-        "only on a never-plotted twin. Part library enumerates repetition-code / simplified / multi-round / calibration "
+        "only on a never-plotted twin; in about a fifth of the cases the unfinished circuit was already drawn once (default arguments) before a generated top-level item was added. Part library enumerates repetition-code / simplified / multi-round / calibration "
         "circuits x reversed, rotated, two-id-prefix, no and unknown-id order x label maps x outer durations x unrolled. "
         "Oracle: plot_circuit (Agg) must not raise; the description it actually hands to plot_circuit_description is "
         "captured and must show rows = requested order + each remaining occupied id once, labels of mapped channels = the "
@@ -117,7 +117,9 @@ def case_strategy(kinds, unknown: bool):
         if draw(st.integers(0, 9)) < 7:
             outer = [draw(st.sampled_from(pos)) for _ in range(4)]
         return {"program": program, "order": order, "labels": labels, "compact": draw(st.integers(0, 2)) < 2,
-                "outer": outer, "unroll": draw(st.integers(0, 1)) == 0, "observe_first": draw(st.integers(0, 1)) == 0}
+                "outer": outer, "unroll": draw(st.integers(0, 1)) == 0, "observe_first": draw(st.integers(0, 1)) == 0,
+                # the unfinished circuit is drawn once before the top-level item of this number is added (None: never)
+                "early_plot": draw(st.none() | st.integers(1, 6))}
     return case()
 
 
@@ -373,8 +375,27 @@ def body(case, ctx, unknown: bool = False):
     program = case["program"]
     occ = occupied(program)
     nontrivial, classes, st = classify(case, program, occ, unknown)
-    ctx.case(case, nontrivial=nontrivial, classes=classes)
-    run(case, ctx, make=lambda: P.build(program).circuit, program=program, occ=occ, kinds=st["kinds"], unknown=unknown)
+    early = case.get("early_plot")
+    if early is not None and early >= len(program["top"]["items"]):
+        early = None
+    ctx.case(case, nontrivial=nontrivial, classes=classes + [f"early_plot={early is not None}"])
+    calls = [0]
+
+    def peek(decl, p, it):
+        import matplotlib.pyplot as plt
+        if len(p) == 1 and p[0] == early and len(decl.operations) > 0:
+            before = list(plt.get_fignums())
+            try:
+                _dc().plot_circuit(decl)
+            finally:
+                for n in [n for n in plt.get_fignums() if n not in before]:
+                    plt.close(n)
+
+    def make():
+        # only the circuit that is drawn and judged later gets the early drawing; twin and probe are never drawn
+        calls[0] += 1
+        return P.build(program, peek=peek if (early is not None and calls[0] == 1) else None).circuit
+    run(case, ctx, make=make, program=program, occ=occ, kinds=st["kinds"], unknown=unknown)
 
 
 def run(case, ctx, make, program, occ, kinds, unknown: bool):
